@@ -138,6 +138,15 @@ pub fn plans(ctx: &WorkerCtx) -> Vec<Plan> {
     let ctr = fam::p_ctr();
     probes.extend(ctr.iter().step_by(if q { 7 } else { 1 }).cloned());
     probes.extend(fam::p_big());
+    {
+        // start / max corner pairs (start > max > 0, NaN, infinities) in every position
+        use maybenot::dist::{Dist, DistType};
+        for (si, (st, mx)) in super::c13::start_max().into_iter().enumerate() {
+            for pos in 0..4 {
+                probes.push((format!("startmax[{si},pos{pos}]"), fam::all11_machine(pos, Dist { dist: DistType::Uniform { low: 1.0, high: 4.0 }, start: st, max: mx })));
+            }
+        }
+    }
     let base = Opts { n32: 2, n64: 3, check_clone: true, fresh_every: 64, panic_is_violation: true, ..Default::default() };
     let mut v = vec![];
     let mut lib1 = vec![];
@@ -145,26 +154,30 @@ pub fn plans(ctx: &WorkerCtx) -> Vec<Plan> {
     lib1.extend(g2.iter().cloned());
     lib1.extend(probes.iter().cloned());
     let one: Vec<Cfg> = if q { fam::singles(&lib1, &fr).into_iter().enumerate().filter(|(i, _)| i % 2 == (i / 2) % 2).map(|x| x.1).collect() } else { fam::singles(&lib1, &fr) };
-    v.push(Plan { name: "one machine: G1+G2+probes, singles+eps+long batches".into(), cfgs: one, alpha_for: alpha_for(false, if q { vec![0, 2] } else { timed.clone() }), opts: Opts { depth: if q { 3 } else { 5 }, ..base.clone() } });
+    v.push(Plan { name: "one machine: G1+G2+probes, singles+eps+long batches".into(), cfgs: one, alpha_for: alpha_for(false, if q { vec![0, 2] } else { timed.clone() }), opts: Opts { depth: if q { 3 } else { 5 }, ..base.clone() }, walk: Some((1, 120)) });
     let mut lib2 = vec![];
     lib2.extend(g2.iter().cloned());
     lib2.extend(probes.iter().cloned());
     lib2.extend(g1.iter().step_by(5).cloned());
     let mut pairs = fam::pairs_strided(&lib2, 31, 7, &fr4);
     pairs.extend(fam::all_pairs(&fam::p_sig(), &fam::p_sig(), &[(0.0, 0.0)]));
-    v.push(Plan { name: "two machines: strided pairs of G2+probes+G1/5, all signaller pairs".into(), cfgs: pairs.clone(), alpha_for: alpha_for(false, timed.clone()), opts: Opts { depth: if q { 2 } else { 4 }, ..base.clone() } });
+    v.push(Plan { name: "two machines: strided pairs of G2+probes+G1/5, all signaller pairs".into(), cfgs: pairs.clone(), alpha_for: alpha_for(false, timed.clone()), opts: Opts { depth: if q { 2 } else { 4 }, ..base.clone() }, walk: Some((1, 120)) });
     if q {
         let sub: Vec<Cfg> = pairs.iter().filter(|c| !fam::uses_blocking(&c.machines)).step_by(3).cloned().collect();
-        v.push(Plan { name: "two machines: every 3rd pair without blocking actions (clock irrelevant), one level deeper".into(), cfgs: sub, alpha_for: alpha_for(false, vec![0]), opts: Opts { depth: 3, ..base.clone() } });
+        v.push(Plan { name: "two machines: every 3rd pair without blocking actions (clock irrelevant), one level deeper".into(), cfgs: sub, alpha_for: alpha_for(false, vec![0]), opts: Opts { depth: 3, ..base.clone() }, walk: None });
     }
     let small: Vec<_> = lib2.iter().step_by(if q { 3 } else { 1 }).cloned().collect();
-    v.push(Plan { name: "two machines, all ordered pairs of events as batches".into(), cfgs: fam::pairs_strided(&small, 17, 3, &fr), alpha_for: alpha_for(true, vec![0]), opts: Opts { depth: if q { 1 } else { 2 }, ..base.clone() } });
+    v.push(Plan { name: "two machines, all ordered pairs of events as batches".into(), cfgs: fam::pairs_strided(&small, 17, 3, &fr), alpha_for: alpha_for(true, vec![0]), opts: Opts { depth: if q { 1 } else { 2 }, ..base.clone() }, walk: None });
     let t: Vec<_> = lib2.iter().step_by(if q { 5 } else { 2 }).cloned().collect();
-    v.push(Plan { name: "three machines: strided triples".into(), cfgs: fam::triples_strided(&t, &fr), alpha_for: alpha_for(false, vec![0, 3]), opts: Opts { depth: if q { 2 } else { 3 }, full_positions: 4, ..base.clone() } });
+    v.push(Plan { name: "three machines: strided triples".into(), cfgs: fam::triples_strided(&t, &fr), alpha_for: alpha_for(false, vec![0, 3]), opts: Opts { depth: if q { 2 } else { 3 }, full_positions: 4, ..base.clone() }, walk: None });
+    // generated larger machines (3-6 states): the corpus is a sample, histories and draws over it are enumerated
+    let corp = fam::corpus(ctx.seed, if q { 150 } else { 1500 });
+    v.push(Plan { name: "corpus of generated 3-6 state machines (corpus sampled from VERIF_SEED): BFS plus long random walks".into(), cfgs: fam::singles(&corp, &fr[1..]), alpha_for: alpha_for(false, vec![0, 2]), opts: Opts { depth: if q { 2 } else { 3 }, ..base.clone() }, walk: Some((if q { 2 } else { 4 }, 200)) });
+    v.push(Plan { name: "corpus pairs: BFS plus long random walks".into(), cfgs: fam::pairs_strided(&corp, 31, 7, &fr4), alpha_for: alpha_for(false, vec![0, 2]), opts: Opts { depth: if q { 1 } else { 2 }, ..base.clone() }, walk: Some((if q { 2 } else { 4 }, 200)) });
     if !q {
         // 8-word u32 menu (quarter thresholds) on the probabilistic sub-family
         let prob: Vec<_> = g2.iter().step_by(3).cloned().collect();
-        v.push(Plan { name: "two machines, 8-word u32 menu (quarter thresholds)".into(), cfgs: fam::pairs_strided(&prob, 31, 7, &fr), alpha_for: alpha_for(false, vec![0, 3]), opts: Opts { depth: 3, n32: 8, n64: 4, ..base.clone() } });
+        v.push(Plan { name: "two machines, 8-word u32 menu (quarter thresholds)".into(), cfgs: fam::pairs_strided(&prob, 31, 7, &fr), alpha_for: alpha_for(false, vec![0, 3]), opts: Opts { depth: 3, n32: 8, n64: 4, ..base.clone() }, walk: None });
     }
     v
 }
